@@ -8,11 +8,11 @@ if [ "$1" = "--patch" ]; then git apply $3 "$2" || { echo "patch failed"; exit 2
 else sed -i "$1" "$2"; fi
 if [ -z "$(git status --porcelain)" ]; then echo "MUTATION HAD NO EFFECT"; exit 2; fi
 export GOFLAGS=-mod=mod GOPROXY=off GOSUMDB=off GOTOOLCHAIN=local
-if ! go build ./... 2>/tmp/mut-build.log; then echo "mutant does not compile"; cat /tmp/mut-build.log; git checkout -- .; exit 2; fi
+if ! go build ./... 2>/tmp/mut-build.log; then echo "mutant does not compile"; cat /tmp/mut-build.log; git checkout -- .; git clean -fdq; exit 2; fi
 rc=0
 for id in ${IDS//,/ }; do
   out=$(cd /verif && ./check $id $TIER 2>&1); code=$?
   echo "$out" | grep -E "VIOLATION|KNOWN|INCONCLUSIVE|seed=" | head -8
   echo "== $id exit=$code"
 done
-git checkout -- .
+git checkout -- .; git clean -fdq
